@@ -1020,6 +1020,9 @@ func c06FromNode(n *yaml.Node, unordered map[*ref.V]bool, depth ...int) (*ref.V,
 				return nil, err
 			}
 			return ref.FloatV(f), nil
+		case "!!timestamp":
+			// JSON has no timestamps: the scalar converts to the string of its source text
+			return ref.StrV(t), nil
 		}
 		return nil, fmt.Errorf("scalar %q resolved to unexpected tag %s", clipStr(t, 40), n.ShortTag())
 	case yaml.SequenceNode:
